@@ -15,12 +15,14 @@ let dgram_bytes (b : z list) : string =
 
 let show_out (o : rt_out) : string option =
   match o with
-  | RoTx (t, _, s, b) -> Some (Printf.sprintf "tx:%s:%s:%s" (zs t) (zs s) (dgram_bytes b))
+  | RoTx (t, _, s, b, _, _) -> Some (Printf.sprintf "tx:%s:%s:%s" (zs t) (zs s) (dgram_bytes b))
   | RoSent m -> Some ("s:" ^ zs m)
   | RoNack (t, _, s, r, m, _, _) -> Some (Printf.sprintf "nk:%s:%s:%s:%s:1" (zs t) (zs s) (zs r) (zs m))
   | RoNackNoPdu (t, s, r, m) -> Some (Printf.sprintf "nk:%s:%s:%s:%s:0" (zs t) (zs s) (zs r) (zs m))
   | RoAcked (_, _) -> None
   | RoWait (t, w, hd) -> Some (Printf.sprintf "w:%s:%s:%s" (zs t) (zs w) (zs hd))
+  | RoEpoll (t, et) -> Some (Printf.sprintf "ep:%s:%s" (zs t) (zs et))
+  | RoIoRet (t, r) -> Some (Printf.sprintf "io:%s:%s" (zs t) (zs r))
   | RoDump (t, l) ->
       let items = List.map (fun (d, n) ->
         Printf.sprintf "%s/%s/%s/%s" (zs d) (zs n.qn_sess) (zs n.qn_mid) (zs n.qn_cnt)) l in
@@ -32,16 +34,21 @@ let c06 toks =
   | ns :: rest ->
       let ns = int_of_string ns in
       let cfgs = Array.make ns { rc_at_ip = Z0; rc_at_fp = Z0; rc_arf_ip = Z0; rc_arf_fp = Z0; rc_max = Z0 } in
+      let nst = ref [] in
       let rec take_cfg k toks =
         if k = ns then toks
         else match toks with
-          | a :: b :: c :: d :: m :: _nstart :: tl ->
+          | a :: b :: c :: d :: m :: nstart :: tl ->
               cfgs.(k) <- { rc_at_ip = zi a; rc_at_fp = zi b; rc_arf_ip = zi c; rc_arf_fp = zi d; rc_max = zi m };
+              nst := (z_of_int k, zi nstart) :: !nst;
               take_cfg (k + 1) tl
           | _ -> failwith "c06 cfg" in
       let evtoks = take_cfg 0 rest in
-      let st = ref (rt_init Z0) in
+      let st = ref (rt_init Z0 (List.rev !nst)) in
       let outs = ref [] in
+      Array.iteri (fun k c ->
+        outs := Printf.sprintf "0.cfg:%d:%s:%s:%s:%s:%s" k (zs c.rc_at_ip) (zs c.rc_at_fp)
+                  (zs c.rc_arf_ip) (zs c.rc_arf_fp) (zs c.rc_max) :: !outs) cfgs;
       let last_tick = ref (-1) and last_wait = ref 0 in
       let evi = ref (-1) in
       let step ev =
@@ -55,10 +62,16 @@ let c06 toks =
           | Some s -> outs := (string_of_int !evi ^ "." ^ s) :: !outs
           | None -> ()) o in
       let sess s = z_of_int (int_of_string s mod ns) in
+      let dead = Array.make ns false in
+      let is_dead s = dead.(int_of_string s mod ns) in
       let rec go toks =
         incr evi;
         match toks with
         | [] -> ()
+        | "S" :: s :: _ :: _ :: _ :: _ :: _ :: tl when is_dead s -> go tl
+        | ("K" | "R" | "X") :: s :: _ :: tl when is_dead s -> go tl
+        | "P" :: s :: _ :: _ :: tl when is_dead s -> go tl
+        | "N" :: s :: _ :: _ :: _ :: tl when is_dead s -> go tl
         | "A" :: dt :: tl -> step (RtAdvance (zi dt)); go tl
         | "W" :: k :: tl ->
             (if !last_tick >= 0 then begin
@@ -77,6 +90,15 @@ let c06 toks =
         | "K" :: s :: mid :: tl -> step (RtAck (sess s, zi mid)); go tl
         | "P" :: s :: mid :: _tok :: tl -> step (RtAck (sess s, zi mid)); go tl
         | "R" :: s :: mid :: tl -> step (RtRst (sess s, zi mid)); go tl
+        | "N" :: s :: mid :: _code :: tok :: tl -> step (RtNon (sess s, zi mid, bytes_of_tok tok)); go tl
+        | "D" :: s :: reason :: tl ->
+            let si = int_of_string s mod ns in
+            if not dead.(si) then begin
+              step (RtDisconnect (z_of_int si, zi reason)); dead.(si) <- true
+            end;
+            go tl
+        | "X" :: s :: mid :: tl -> step (RtDelete (sess s, zi mid)); go tl
+        | "I" :: tmo :: tl -> step (RtIoProcess (zi tmo)); go tl
         | "Q" :: tl -> step RtDump; go tl
         | _ -> failwith "c06 event" in
       go evtoks;
